@@ -203,7 +203,7 @@ PROPS = {
     'C17': {
         'level': 'exploration',
         'engine': 'inputx',
-        'claim': 'Complete enumeration: (a) cstl_hash_mul / cstl_hash_div are called for every key below 2^28 (thorough 2^32) and for one key per single-precision value in [2^24, 2^64] with its neighbours, against table sizes {16, 1000003, SIZE_MAX} (+ 24 boundary sizes on a stride, among them 2^16, 2^31, 2^32-1, 2^32, 2^32+1, 2^33, 3*2^32, 2^63), for every single-precision value of the table size in [1, 2^64] (quick: every value up to 2^27, every 64th above) with the smallest m that rounds to it against the keys whose fraction is largest / smallest (found by this run among all keys below 2^24), and on the full product k < 2^20 x m <= 64 (thorough k < 2^23 x m <= 1024); every result must be below m. (b) a caller-supplied hash function returns m, m+1, SIZE_MAX, 2^32, or 2^8 / 2^16 / 2^32 / 2^63 plus the in-range index (out of range, but right in the low bits) at its j-th call, for every j that insert / find(present) / find(absent) / erase(member) / erase(non-member) / rehash / foreach / resize / shrink_to_fit make in a settled, a grow-pending and a shrink-pending table: the operation must end in abort() with no further hash call, and any access outside the bucket array is an AddressSanitizer report. A built-in hash that traps (SIGFPE, wild access) publishes the evaluation in flight, which the driver replays and reports.',
+        'claim': 'Complete enumeration: (a) cstl_hash_mul / cstl_hash_div are called for every key below 2^28 (thorough 2^32) and for one key per single-precision value in [2^24, 2^64] with its neighbours, against table sizes {16, 1000003, SIZE_MAX} (+ 24 boundary sizes on a stride, among them 2^16, 2^31, 2^32-1, 2^32, 2^32+1, 2^33, 3*2^32, 2^63), for every single-precision value of the table size in [1, 2^64] (quick: every value up to 2^27, every 64th above) with the smallest m that rounds to it against the keys whose fraction is largest / smallest (found by this run among all keys below 2^24), and on the full product k < 2^20 x m <= 64 (thorough k < 2^23 x m <= 1024); every result must be below m. (b) a caller-supplied hash function returns m, m+1, SIZE_MAX, 2^32, or 2^8 / 2^16 / 2^32 / 2^63 plus the in-range index (out of range, but right in the low bits) at its j-th call, for every j that insert / find(present) / find(absent) / erase(member) / erase(non-member) / rehash / foreach / resize / shrink_to_fit make in a settled, a grow-pending and a shrink-pending table: the operation must end in abort() with no further hash call, and any access outside the bucket array is an AddressSanitizer report. A built-in hash that traps (SIGFPE, wild access) publishes the evaluation in flight, which the driver replays and reports. (c) every life-cycle of a table that only uses built-in hashes (NULL default, cstl_hash_mul, cstl_hash_div), to depth 5 over {resize to 8/16/5, insert, find, erase, rehash, foreach, shrink_to_fit, clear} with keys up to SIZE_MAX: no operation may abort.',
         'note': 'The reduction to one key per single-precision value above 2^32 is valid while the implementation reads the key through a float; keys below 2^28 / 2^32 are enumerated one by one without any reduction. Built with the shipped flags (float evaluation method is part of the question) + ASan, and -O0 + ASan.',
         'technique': 'exhaustive enumeration of keys and table sizes on the single-precision grid + fault enumeration over hash-call ordinals per entry point and table state',
         'jobs': [{'world': 'hashrange', 'src': 'worlds/hashrange_world.c', 'lib': [], 'unity': True, 'flavours': {'quick': ['rel'], 'thorough': ['rel', 'dbg']}}],
